@@ -15,7 +15,8 @@ RULE = ("typed terms of every type from the typed grammar (type known by constru
         "class of the expected type, taken from the harness's copy of the OData return-type table "
         "(argument-derived for concat/substring); typecheck(node, allowed) does not raise when the true type "
         "is allowed, and raises ArgumentTypeException when the node is a literal of a kind outside the "
-        "allowed set. Non-trivial: a call or operator at the root; distinct by text.")
+        "allowed set. Long-lived process: 300-12000 (thorough: 100000) requests over a rotating set of calls of known type, trees dropped after use plus a few that stay alive, every answer judged against the table. "
+        "Non-trivial: a call or operator at the root; distinct by text.")
 ASSUMPTIONS = ["Edm numeric types are collapsed to Int (Int32/Int64) and Real (Double/Decimal) as the library's literal kinds do"]
 
 F_ALL = gen_typed.Fragment(
@@ -159,6 +160,8 @@ def check_backend_rejection(case):
 
 
 def check_case(case):
+    if case.get("mode") == "history":
+        return check_history(case["n"], case["seed"])
     if case.get("mode") == "backend-literal":
         return check_backend_rejection(case)
     if case.get("mode") == "literal":
@@ -291,12 +294,49 @@ def scaled_cases(draw):
     return {"term": to_json(t), "type": "List"}
 
 
+HISTORY = [("concat('a', 'b')", "Str"), ("concat((1, 2), (3, 4))", "List"), ("substring((1, 2, 3), 1)", "List"),
+           ("tolower('ABC')", "Str"), ("length('abc')", "Int"), ("contains('abc', 'b')", "Bool"), ("round(1.5)", "Real"),
+           ("date(2020-01-01T10:00:00Z)", "Date"), ("now()", "DateTime"), ("year(2020-01-01)", "Int"),
+           ("substring(concat(s1, 'x'), 1, 2)", "Str"), ("concat(substring((1, 2), 1), (3,))", "List"),
+           ("time(t1)", "Time"), ("indexof(s1, 'a')", "Int"), ("floor(r1)", "Real"), ("geo.length(loc)", "Real"),
+           ("length((1, 2))", "Int"), ("trim(concat('a', s1))", "Str")]
+
+
+def check_history(n, seed):
+    """A long-lived process: n requests over a rotating set of calls whose types are known, each tree
+    dropped after use; a few trees stay alive and are asked again every round. Every answer is judged
+    on its own against the table (never against an earlier answer)."""
+    from odata_query import typing as ty
+    hot = [(lib.parse(t), e) for t, e in HISTORY[:4]]
+    for i in range(n):
+        text, exp_ty = HISTORY[(i * 7 + i // 11 + seed) % len(HISTORY)]
+        probes = [(lib.parse(text), exp_ty, text)] + [(a, e, "long-lived tree") for a, e in hot[i % 4:i % 4 + 1]]
+        for a, e, what in probes:
+            exp = node_class(TYPE_NODE[e])
+            try:
+                got = ty.infer_type(a)
+            except Exception as ex_:
+                return ("history:infer-exception:" + lib.exc_bucket(ex_), "request #%d of %d, %s: %s" % (i, n, what, ex_))
+            if got is not None and got is not exp:
+                return ("history:wrong-type:%s-as-%s" % (e, getattr(got, "__name__", got)),
+                        "request #%d of %d: %s inferred as %s, actual type %s" % (i, n, what, getattr(got, "__name__", got), e))
+            other = node_class("String") if e == "List" else node_class("List")
+            try:
+                ty.typecheck(a, exp, "arg")
+            except Exception as ex_:
+                return ("history:typecheck-rejects-well-typed", "request #%d of %d: %s of type %s rejected: %s" % (i, n, what, e, ex_))
+        del probes
+    return None
+
+
 def plan(tier, seed, scale):
     K = 16
     tasks = [{"name": "exh", "kind": "exh"}]
     total = int((40000 if tier == "quick" else 400000) * scale)
     for i in range(K):
         tasks.append({"name": "rand-%d" % i, "kind": "rand", "n": max(total // K, 10), "shard": i})
+    for n in ([300, 1100, 5000, 12000] if tier == "quick" else [300, 1100, 5000, 12000, 40000, 100000]):
+        tasks.append({"name": "history-%d" % n, "kind": "history", "n": n})
     return tasks
 
 
@@ -318,6 +358,14 @@ def run_task(task, seed, acc):
         if r:
             acc.fail(r[0], case, r[1])
 
+    if task["kind"] == "history":
+        case = {"mode": "history", "n": task["n"], "seed": seed}
+        r = check_history(task["n"], seed)
+        acc.case(key=digest(case), nontrivial=True, sample=case)
+        acc.cls("history_requests", task["n"])
+        if r:
+            acc.fail(r[0], case, r[1])
+        return
     if task["kind"] == "exh":
         for case in exhaustive_cases():
             one(case)
